@@ -742,7 +742,7 @@ def run_shard(ctx, spec):
 
 
 def plan(tier, seed):
-    n = 3000 if tier == "quick" else 60000
+    n = 3000 if tier == "quick" else 400000
     return ([("templates", i, 8) for i in range(8)] + [("errors", i, 8) for i in range(8)] + [("request", i, 8) for i in range(8)] + [("dupfile",)]
             + [("random", n // 16, i) for i in range(16)] + [("errors-at-element", i, 8) for i in range(8)] + [("parse-errors", i, 8) for i in range(8)] + [("unfinished",)])
 
